@@ -246,6 +246,10 @@ def _seat_card_step(self, iter, trick_num, i, declarer, dummy):
             len(to_main(self)) == 0, implies(not opening, relay_last))))
 
 
+def _four_cards(i):
+    return i == 3
+
+
 @contract('bridge_env.network_bridge.server.PlayerThread._playing_phase', props=['C10'])
 class _seat_playing:
     returns = Bool()
@@ -254,10 +258,15 @@ class _seat_playing:
     modifies = ['self.connection_socket', 'self._received_message_queues',
                 'self._sent_message_queues']
     loops = {0: LoopContract(invariant=_seat_play_outer_inv, havoc=dict(active_player=Enum(Player)),
-                             havoc_heap=SEAT_RESET),
+                             havoc_heap=SEAT_RESET,
+                             body_ensures=dict(four_cards_per_trick=_four_cards)),
              1: LoopContract(invariant=_seat_play_inner_inv, havoc=dict(active_player=Enum(Player)),
                              havoc_heap=SEAT_RESET,
                              body_ensures=dict(card_step=_seat_card_step))}
+
+    # C10: the play relayed to a seat is thirteen tricks (of four cards: per-iteration clause)
+    def ensures_thirteen_tricks(result, frame):
+        return implies(result, frame.trick_num == 13)
 
 
 def _seat_run_inv(self):
